@@ -1,11 +1,14 @@
 /-
 C05 — helper lemmas about the interpreter model and the text-model specification.
+Property theorems are in `Props/C05.lean`.
 -/
 import PdfVerif.Model.Interp
 import PdfVerif.Spec.TextModel
 
 namespace PdfVerif.Interp
-open PdfVerif PdfVerif.Content PdfVerif.Gen.Utils PdfVerif.Gen.Interp
+open PdfVerif PdfVerif.Content PdfVerif.Gen.Utils PdfVerif.Gen.Interp PdfVerif.TextModel
+
+/-! ### running token lists -/
 
 theorem execToks_append (env : Env) (rf : Form → Matrix → Res → List Glyph × Bool) (st : MState) (a b : List Tok) :
     execToks env rf st (a ++ b) =
@@ -17,5 +20,431 @@ theorem execToks_append (env : Env) (rf : Form → Matrix → Res → List Glyph
     simp only [List.cons_append, execToks]
     rw [ih]
     simp [List.append_assoc]
+
+/-! ### matrices -/
+
+theorem translate_mult (m c : Matrix) (v : Point) :
+    translate_matrix (mult_matrix m c) v = mult_matrix (translate_matrix m v) c := by
+  obtain ⟨a1, a2, a3, a4, a5, a6⟩ := m
+  obtain ⟨b1, b2, b3, b4, b5, b6⟩ := c
+  obtain ⟨x, y⟩ := v
+  simp only [mult_matrix, translate_matrix, Prod.mk.injEq]
+  refine ⟨?_, ?_, ?_, ?_, ?_, ?_⟩ <;> grind
+
+theorem mult_translation (m : Matrix) (tx ty : Rat) :
+    mult_matrix (1, 0, 0, 1, tx, ty) m = translate_matrix m (tx, ty) := by
+  obtain ⟨a1, a2, a3, a4, a5, a6⟩ := m
+  simp only [mult_matrix, translate_matrix, Prod.mk.injEq]
+  refine ⟨?_, ?_, ?_, ?_, ?_, ?_⟩ <;> grind
+
+theorem translate_translate (m : Matrix) (x y tx ty : Rat) :
+    translate_matrix (translate_matrix m (x, y)) (tx, ty) = translate_matrix m (x + tx, y + ty) := by
+  obtain ⟨a1, a2, a3, a4, a5, a6⟩ := m
+  simp only [translate_matrix, Prod.mk.injEq]
+  refine ⟨?_, ?_, ?_, ?_, ?_, ?_⟩ <;> grind
+
+theorem translate_zero (m : Matrix) : translate_matrix m (0, 0) = m := by
+  obtain ⟨a1, a2, a3, a4, a5, a6⟩ := m
+  simp only [translate_matrix, Prod.mk.injEq]
+  refine ⟨?_, ?_, ?_, ?_, ?_, ?_⟩ <;> grind
+
+/-! ### one glyph: `LTChar.__init__` against the text model's glyph -/
+
+theorem rect_ordered (m : Matrix) (r : Rect) :
+    ¬ ((apply_matrix_rect m r).2.2.1 < (apply_matrix_rect m r).1) ∧
+    ¬ ((apply_matrix_rect m r).2.2.2 < (apply_matrix_rect m r).2.1) := by
+  obtain ⟨a1, a2, a3, a4, a5, a6⟩ := m
+  obtain ⟨x0, y0, x1, y1⟩ := r
+  simp only [apply_matrix_rect, apply_matrix_pt]
+  constructor <;> grind
+
+/-- The glyph `render_char`/`LTChar` build at pen position `(x, y)` of the line is the glyph the
+text model paints with `Tm = translate(x, y) × Tlm`. -/
+theorem ltchar_eq_observe (f : Font) (M ctm : Matrix) (gs : GS) (x y : Rat) (c : Nat)
+    (h1 : gs.ctm = ctm) :
+    ltchar (translate_matrix (mult_matrix M ctm) (x, y)) f gs.Tfs (rs_scaling gs.Th) gs.Trise c gs.fill
+      = observe (mult_matrix (translate_matrix M (x, y)) gs.ctm) f gs c := by
+  subst h1
+  rw [translate_mult]
+  generalize mult_matrix (translate_matrix M (x, y)) gs.ctm = T
+  have hadv : ltchar_adv (charWidth f c) gs.Tfs (rs_scaling gs.Th) = f.width c / 1000 * gs.Tfs * (gs.Th / 100) := by
+    simp only [ltchar_adv, charWidth, char_width_scaled, font_hscale, rs_scaling]; grind
+  have hbox : ltchar_bbox_h (ltchar_descent (font_get_descent f.descent font_vscale) gs.Tfs) gs.Trise
+        (f.width c / 1000 * gs.Tfs * (gs.Th / 100)) gs.Tfs
+      = (0, f.descent / 1000 * gs.Tfs + gs.Trise, f.width c / 1000 * gs.Tfs * (gs.Th / 100),
+         f.descent / 1000 * gs.Tfs + gs.Trise + gs.Tfs) := by
+    simp only [ltchar_bbox_h, ltchar_descent, font_get_descent, font_vscale, Prod.mk.injEq]
+    refine ⟨trivial, ?_, trivial, ?_⟩ <;> grind
+  unfold ltchar observe
+  simp only [hadv, hbox]
+  have ho := rect_ordered T (0, f.descent / 1000 * gs.Tfs + gs.Trise, f.width c / 1000 * gs.Tfs * (gs.Th / 100),
+         f.descent / 1000 * gs.Tfs + gs.Trise + gs.Tfs)
+  generalize apply_matrix_rect T _ = R at ho ⊢
+  obtain ⟨x0, y0, x1, y1⟩ := R
+  simp only at ho
+  simp [ho.1, ho.2]
+
+/-! ### strings: `render_string_horizontal` against 9.4.4 -/
+
+/-- Pen advance of the code: `x += adv; x += charspace; if cid == 32 and wordspace: x += wordspace`
+is the displacement `tx = (w0·Tfs + Tc + Tw)·Th` of 9.4.4. -/
+theorem pen_advance (f : Font) (gs : GS) (x : Rat) (c : Nat) :
+    (if c = 32 ∧ rs_wordspace gs.Tw (rs_scaling gs.Th) ≠ 0 then
+        x + ltchar_adv (charWidth f c) gs.Tfs (rs_scaling gs.Th) + rs_charspace gs.Tc (rs_scaling gs.Th)
+          + rs_wordspace gs.Tw (rs_scaling gs.Th)
+      else x + ltchar_adv (charWidth f c) gs.Tfs (rs_scaling gs.Th) + rs_charspace gs.Tc (rs_scaling gs.Th))
+    = x + (f.width c / 1000 * gs.Tfs + gs.Tc + (if c = 32 then gs.Tw else 0)) * (gs.Th / 100) := by
+  simp only [ltchar_adv, charWidth, char_width_scaled, font_hscale, rs_scaling, rs_charspace, rs_wordspace]
+  by_cases hc : c = 32
+  · by_cases hw : gs.Tw * (gs.Th * (1 / 100)) = 0
+    · simp only [hc, hw, ne_eq, not_true_eq_false, and_false, if_false, if_true] <;> grind
+    · simp only [hc, hw, ne_eq, not_false_eq_true, and_self, if_true] <;> grind
+  · simp only [hc, false_and, if_false] <;> grind
+
+theorem renderCodes_showCodes (f : Font) (M : Matrix) (gs : GS) (y : Rat) (codes : List Nat) :
+    ∀ x : Rat,
+    showCodes f gs (translate_matrix M (x, y)) codes =
+      (translate_matrix M
+        ((renderCodes f (mult_matrix M gs.ctm) gs.Tfs (rs_scaling gs.Th) (rs_charspace gs.Tc (rs_scaling gs.Th))
+            (rs_wordspace gs.Tw (rs_scaling gs.Th)) gs.Trise gs.fill y x codes).1, y),
+       (renderCodes f (mult_matrix M gs.ctm) gs.Tfs (rs_scaling gs.Th) (rs_charspace gs.Tc (rs_scaling gs.Th))
+            (rs_wordspace gs.Tw (rs_scaling gs.Th)) gs.Trise gs.fill y x codes).2) := by
+  induction codes with
+  | nil => intro x; simp [showCodes, renderCodes]
+  | cons c rest ih =>
+    intro x
+    simp only [showCodes, renderCodes]
+    rw [mult_translation, translate_translate]
+    have hg := ltchar_eq_observe f M gs.ctm gs x y c rfl
+    have hadv : (ltchar (translate_matrix (mult_matrix M gs.ctm) (x, y)) f gs.Tfs (rs_scaling gs.Th) gs.Trise c gs.fill).adv
+        = ltchar_adv (charWidth f c) gs.Tfs (rs_scaling gs.Th) := by
+      unfold ltchar; simp only
+    rw [hadv, pen_advance f gs x c]
+    have h0 : y + 0 = y := by grind
+    rw [h0, ih]
+    simp only [hg]
+
+/-- `TJ` arrays of numbers and strings. -/
+theorem renderSeq_showSeq (f : Font) (M : Matrix) (gs : GS) (y : Rat) (seq : List Elem)
+    (hseq : ∀ e ∈ seq, e ≠ Elem.other) :
+    ∀ x : Rat,
+    showSeq f gs (translate_matrix M (x, y)) seq =
+      some (translate_matrix M
+        ((renderSeq f (mult_matrix M gs.ctm) gs.Tfs (rs_scaling gs.Th) (rs_charspace gs.Tc (rs_scaling gs.Th))
+            (rs_wordspace gs.Tw (rs_scaling gs.Th)) gs.Trise (rs_dxscale gs.Tfs (rs_scaling gs.Th)) gs.fill y x seq).1, y),
+       (renderSeq f (mult_matrix M gs.ctm) gs.Tfs (rs_scaling gs.Th) (rs_charspace gs.Tc (rs_scaling gs.Th))
+            (rs_wordspace gs.Tw (rs_scaling gs.Th)) gs.Trise (rs_dxscale gs.Tfs (rs_scaling gs.Th)) gs.fill y x seq).2) := by
+  induction seq with
+  | nil => intro x; simp [showSeq, renderSeq]
+  | cons e rest ih =>
+    intro x
+    have hrest : ∀ e ∈ rest, e ≠ Elem.other := fun e he => hseq e (List.mem_cons_of_mem _ he)
+    cases e with
+    | num n =>
+      simp only [showSeq, renderSeq]
+      rw [mult_translation, translate_translate]
+      have h0 : y + 0 = y := by grind
+      have hx : x + -n / 1000 * gs.Tfs * (gs.Th / 100) = x - n * rs_dxscale gs.Tfs (rs_scaling gs.Th) := by
+        simp only [rs_dxscale, rs_scaling]; grind
+      rw [h0, hx]
+      exact ih hrest _
+    | str codes =>
+      simp only [showSeq, renderSeq]
+      rw [renderCodes_showCodes]
+      simp only
+      rw [ih hrest]
+    | other => exact absurd rfl (hseq _ (List.mem_cons_self))
+
+/-! ### operands -/
+
+/-- What `execute` has on its stack after the operands of an instruction: `null` is not pushed. -/
+def pushed : List Obj → List Obj
+  | [] => []
+  | .null :: rest => pushed rest
+  | o :: rest => o :: pushed rest
+
+theorem execToks_opnds (env : Env) (rf : Form → Matrix → Res → List Glyph × Bool) (args : List Obj) :
+    ∀ m : MState, execToks env rf m (args.map Tok.opnd) = ({ m with argstack := m.argstack ++ pushed args }, []) := by
+  induction args with
+  | nil => intro m; simp [execToks, pushed]
+  | cons o rest ih =>
+    intro m
+    cases o <;> simp [execToks, execTok, pushed, ih, List.append_assoc]
+
+theorem execToks_instr (env : Env) (rf : Form → Matrix → Res → List Glyph × Bool) (m : MState) (i : Instr) :
+    execToks env rf m i.toks = execTok env rf { m with argstack := m.argstack ++ pushed i.args } (.op i.op) := by
+  unfold Instr.toks
+  rw [execToks_append, execToks_opnds]
+  simp [execToks]
+
+theorem pushed_length_le (args : List Obj) : (pushed args).length ≤ args.length := by
+  induction args with
+  | nil => simp [pushed]
+  | cons o rest ih => cases o <;> simp [pushed] <;> omega
+
+theorem pushed_eq_of_length (args : List Obj) (h : (pushed args).length = args.length) : pushed args = args := by
+  induction args with
+  | nil => rfl
+  | cons o rest ih =>
+    have hle := pushed_length_le rest
+    cases o <;> simp [pushed] at h ⊢ <;> first | exact ih h | omega
+
+def NoBool (args : List Obj) : Prop := ∀ o ∈ args, Obj.isBool o = false
+
+theorem safeFloats_nums (qs : List Rat) : safeFloats (qs.map Obj.num) = some qs := by
+  induction qs with
+  | nil => rfl
+  | cons q rest ih => simp [safeFloats, safeFloat, ih]
+
+theorem wellTyped_nums (args : List Obj) :
+    ∀ n, wellTyped (List.replicate n Ty.num) args = true → ∃ qs : List Rat, args = qs.map Obj.num ∧ qs.length = n := by
+  induction args with
+  | nil =>
+    intro n h
+    cases n with
+    | zero => exact ⟨[], rfl, rfl⟩
+    | succ k => simp [List.replicate, wellTyped] at h
+  | cons o rest ih =>
+    intro n h
+    cases n with
+    | zero => simp [List.replicate, wellTyped] at h
+    | succ k =>
+      simp only [List.replicate, wellTyped, Bool.and_eq_true] at h
+      obtain ⟨qs, hq, hl⟩ := ih k h.2
+      cases o <;> simp [Ty.ok] at h
+      rename_i q
+      exact ⟨q :: qs, by simp [hq], by simp [hl]⟩
+
+theorem safeFloats_none (args : List Obj) (hb : NoBool args) :
+    wellTyped (List.replicate args.length Ty.num) args = false → safeFloats args = none := by
+  induction args with
+  | nil => intro h; simp [wellTyped] at h
+  | cons o rest ih =>
+    intro h
+    have hb1 : Obj.isBool o = false := hb o (List.mem_cons_self)
+    have hb2 : NoBool rest := fun x hx => hb x (List.mem_cons_of_mem _ hx)
+    simp only [List.length_cons, List.replicate, wellTyped, Bool.and_eq_false_iff] at h
+    cases o <;> simp [Obj.isBool] at hb1 <;> simp [safeFloats, safeFloat, Ty.ok] at h ⊢
+    rename_i q
+    rw [ih hb2 h]
+
+/-! ### the simulation relation -/
+
+/-- `textstate.font` against `Tf`. -/
+def FontRel (env : Env) : FontSel → Option Nat → Prop
+  | .unset, none => True
+  | .idx i, some j => i = j ∧ j < env.fonts.length
+  | _, _ => False
+
+/-- Interpreter-side graphics state (CTM, text state, colours, colour spaces) against the text
+model's graphics state. `leading` is `−Tl`; the render mode is not observable and not related. -/
+structure GRel (env : Env) (ctm : Matrix) (ts : TextState) (sc nc : Option Color) (scs ncs : CS) (g : GS) : Prop where
+  ctm : ctm = g.ctm
+  fill : nc = g.fill
+  stroke : sc = g.stroke
+  ncs : ncs.2 = g.fillN
+  scs : scs.2 = g.strokeN
+  fillN : g.fillN = 1 ∨ g.fillN = 3 ∨ g.fillN = 4
+  strokeN : g.strokeN = 1 ∨ g.strokeN = 3 ∨ g.strokeN = 4
+  tc : ts.charspace = g.Tc
+  tw : ts.wordspace = g.Tw
+  th : ts.scaling = g.Th
+  tl : ts.leading = -g.Tl
+  tfs : ts.fontsize = g.Tfs
+  trise : ts.rise = g.Trise
+  font : FontRel env ts.font g.Tf
+
+def StackRel (env : Env) : List Saved → List (CS × CS) → List GS → Prop
+  | [], [], [] => True
+  | sv :: gs, c :: cs, g :: ss => GRel env sv.ctm sv.ts sv.scolor sv.ncolor c.1 c.2 g ∧ StackRel env gs cs ss
+  | _, _, _ => False
+
+/-- Inside a text object: `textstate.matrix` is Tlm and the pen offset `linematrix` is what
+separates Tm from Tlm: `Tm = translate(linematrix) × Tlm`. -/
+def TxtRel (ts : TextState) : Option (Matrix × Matrix) → Prop
+  | none => True
+  | some (tm, tlm) => tlm = ts.matrix ∧ tm = translate_matrix ts.matrix ts.linematrix
+
+structure R (env : Env) (m : MState) (s : SState) : Prop where
+  g : GRel env m.ctm m.ts m.scolor m.ncolor m.scs m.ncs s.gs
+  dctm : m.dctm = m.ctm
+  stack : StackRel env m.gstack m.csstack s.stack
+  txt : TxtRel m.ts s.txt
+  res : m.res = s.res
+  args : m.argstack = []
+  fuel : m.fuelOk = true
+
+/-- The two form runners agree: whatever graphics state the caller hands over, if the text model
+gives the form a meaning the interpreter produces the same glyphs (and stays within its budget). -/
+def Agree (rfM : Form → Matrix → Res → List Glyph × Bool) (rfS : Form → GS → Res → Option (List Glyph)) : Prop :=
+  ∀ fm gs res gl, rfS fm gs res = some gl → rfM fm gs.ctm res = (gl, true)
+
+theorem step_inv {env : Env} {rfS : Form → GS → Res → Option (List Glyph)} {s s' : SState} {i : Instr} {gl : List Glyph}
+    (h : step env rfS s i = some (s', gl)) :
+    ∃ tys, sig s.gs i.op = some tys ∧ allowed s.txt.isSome i.op = true ∧ NoBool i.args ∧ i.args.length ≤ tys.length ∧
+      ((wellTyped tys i.args = false ∧ s' = s ∧ gl = []) ∨
+       (wellTyped tys i.args = true ∧ apply env rfS s i.op i.args = some (s', gl))) := by
+  unfold step at h
+  split at h
+  · exact absurd h (by simp)
+  · rename_i tys htys
+    refine ⟨tys, htys, ?_⟩
+    by_cases ha : allowed s.txt.isSome i.op = true
+    · by_cases hb : i.args.any Obj.isBool = true
+      · simp [ha, hb] at h
+      · by_cases hl : tys.length < i.args.length
+        · simp [ha, hb, hl] at h
+        · by_cases hw : wellTyped tys i.args = true
+          · simp only [ha, hb, hl, hw] at h
+            refine ⟨ha, ?_, by omega, Or.inr ⟨hw, by simpa using h⟩⟩
+            intro o ho
+            simp only [Bool.not_eq_true, List.any_eq_false] at hb
+            simpa using hb o ho
+          · simp only [ha, hb, hl, hw] at h
+            simp at h
+            refine ⟨ha, ?_, by omega, Or.inl ⟨by simpa using hw, h.1.symm, h.2⟩⟩
+            intro o ho
+            simp only [Bool.not_eq_true, List.any_eq_false] at hb
+            simpa using hb o ho
+    · simp [ha] at h
+
+/-! ### `execute` on one operator -/
+
+theorem mstate_args_nil (m : MState) (h : m.argstack = []) : { m with argstack := [] } = m := by
+  cases m; simp_all
+
+theorem pop_short (n : Nat) (P : List Obj) (h : P.length ≤ n) : pop n P = (P, []) := by
+  unfold pop
+  have : P.length - n = 0 := by omega
+  simp [this]
+
+theorem execTok_short (env : Env) (rf : Form → Matrix → Res → List Glyph × Bool) (m : MState) (op : Op) (n : Nat)
+    (P : List Obj) (ha : arity op = some (n + 1)) (hP : P.length < n + 1) :
+    execTok env rf { m with argstack := P } (.op op) = ({ m with argstack := [] }, []) := by
+  simp only [execTok, ha]
+  rw [pop_short (n + 1) P (by omega)]
+  have : ¬ P.length = n + 1 := by omega
+  simp [this]
+
+theorem execTok_exact (env : Env) (rf : Form → Matrix → Res → List Glyph × Bool) (m : MState) (op : Op) (n : Nat)
+    (P : List Obj) (ha : arity op = some (n + 1)) (hP : P.length = n + 1) :
+    execTok env rf { m with argstack := P } (.op op) = call env rf { m with argstack := [] } op P := by
+  simp only [execTok, ha]
+  rw [pop_short (n + 1) P (by omega)]
+  simp [hP]
+
+theorem execTok_zero (env : Env) (rf : Form → Matrix → Res → List Glyph × Bool) (m : MState) (op : Op)
+    (ha : arity op = some 0) :
+    execTok env rf m (.op op) = call env rf m op [] := by
+  simp only [execTok, ha]
+
+/-- A `do_*` method given the right number of operands, one of them of the wrong type, does nothing. -/
+theorem call_illtyped (env : Env) (rf : Form → Matrix → Res → List Glyph × Bool) (m : MState) (gs : GS) (op : Op)
+    (tys : List Ty) (args : List Obj) (hsig : sig gs op = some tys) (hlen : args.length = tys.length)
+    (hb : NoBool args) (hw : wellTyped tys args = false)
+    (hdyn : op ≠ .sc ∧ op ≠ .scn ∧ op ≠ .SC ∧ op ≠ .SCN) :
+    call env rf m op args = (m, []) := by
+  cases op <;> simp only [sig, Option.some.injEq, reduceCtorEq] at hsig <;> subst hsig <;>
+    (rcases args with _ | ⟨a, _ | ⟨b, _ | ⟨c, _ | ⟨d, _ | ⟨e, _ | ⟨f, _ | ⟨g, rest⟩⟩⟩⟩⟩⟩⟩ <;>
+      simp only [List.length_cons, List.length_nil, List.length_replicate] at hlen <;> try omega)
+  all_goals first
+    | (simp [wellTyped] at hw; done)
+    | (have hn := safeFloats_none _ hb (by simpa [List.replicate] using hw); simp [call, hn]; done)
+    | (simp at hdyn; done)
+    | skip
+  case Tf => cases a <;> cases b <;> simp_all [call, safeFloats, safeFloat, wellTyped, Ty.ok, NoBool, Obj.isBool]
+  case Tr => cases a <;> simp_all [call, safeInt, wellTyped, Ty.ok, NoBool, Obj.isBool]
+  case Tj => cases a <;> simp_all [call, wellTyped, Ty.ok]
+  case TJ => cases a <;> simp_all [call, wellTyped, Ty.ok]
+  case quote => cases a <;> simp_all [call, wellTyped, Ty.ok]
+  case dquote =>
+    cases c <;> try (simp [call]; done)
+    have hw2 : wellTyped [Ty.num, Ty.num] [a, b] = false := by simpa [wellTyped, Ty.ok] using hw
+    have hb2 : NoBool [a, b] := fun o ho => hb o (by simp at ho ⊢; rcases ho with h | h <;> simp [h])
+    have hn := safeFloats_none [a, b] hb2 (by simpa [List.replicate] using hw2)
+    simp [call, hn]
+  case cs => cases a <;> simp_all [call, wellTyped, Ty.ok]
+  case CS => cases a <;> simp_all [call, wellTyped, Ty.ok]
+  case Do => cases a <;> simp_all [call, wellTyped, Ty.ok]
+
+theorem arity_sig (gs : GS) (op : Op) (tys : List Ty) (hsig : sig gs op = some tys)
+    (hdyn : op ≠ .sc ∧ op ≠ .scn ∧ op ≠ .SC ∧ op ≠ .SCN) : arity op = some tys.length := by
+  cases op <;> simp only [sig, Option.some.injEq, reduceCtorEq] at hsig <;> first
+    | (subst hsig; decide)
+    | (simp at hdyn)
+
+theorem doSetColor_illtyped (m : MState) (stroke : Bool) (n : Nat) (args : List Obj)
+    (hn : (if stroke then m.scs.2 else m.ncs.2) = n) (h134 : n = 1 ∨ n = 3 ∨ n = 4)
+    (hlen : args.length ≤ n) (hb : NoBool args) (hw : wellTyped (List.replicate n Ty.num) args = false)
+    (hargs : m.argstack = []) :
+    doSetColor { m with argstack := pushed args } stroke = m := by
+  have hle := pushed_length_le args
+  unfold doSetColor
+  simp only [hn]
+  by_cases hlt : (pushed args).length < n
+  · simp only [h134, true_and, hlt, if_true]
+    exact mstate_args_nil m hargs
+  · have hP : (pushed args).length = args.length := by omega
+    have hPa := pushed_eq_of_length args hP
+    have hl : args.length = n := by omega
+    rw [hPa]
+    have hnl : ¬ (args.length < n) := by omega
+    simp only [h134, true_and, hnl, if_false, if_true]
+    rw [pop_short n args (by omega)]
+    have hnone := safeFloats_none args hb (by rw [hl]; exact hw)
+    simp only [hnone]
+    exact mstate_args_nil m hargs
+
+/-- C05 "operators with missing or ill-typed operands affect nothing but themselves", on the
+model: after the operands and the operator, the interpreter is in the state it was in. -/
+theorem illtyped_noop (env : Env) (rf : Form → Matrix → Res → List Glyph × Bool) (m : MState) (gs : GS) (op : Op)
+    (tys : List Ty) (args : List Obj) (hsig : sig gs op = some tys) (hlen : args.length ≤ tys.length)
+    (hb : NoBool args) (hw : wellTyped tys args = false) (hargs : m.argstack = [])
+    (hn : m.ncs.2 = gs.fillN) (hs : m.scs.2 = gs.strokeN)
+    (hfn : gs.fillN = 1 ∨ gs.fillN = 3 ∨ gs.fillN = 4) (hsn : gs.strokeN = 1 ∨ gs.strokeN = 3 ∨ gs.strokeN = 4) :
+    execTok env rf { m with argstack := m.argstack ++ pushed args } (.op op) = (m, []) := by
+  rw [hargs, List.nil_append]
+  by_cases hdyn : op ≠ .sc ∧ op ≠ .scn ∧ op ≠ .SC ∧ op ≠ .SCN
+  · have ha := arity_sig gs op tys hsig hdyn
+    have hle := pushed_length_le args
+    cases hk : tys.length with
+    | zero =>
+      have : args = [] := by
+        cases args with
+        | nil => rfl
+        | cons a r => simp [hk] at hlen
+      subst this
+      have : tys = [] := by
+        cases tys with
+        | nil => rfl
+        | cons a r => simp at hk
+      subst this
+      simp [wellTyped] at hw
+    | succ n =>
+      rw [hk] at ha hlen
+      by_cases hlt : (pushed args).length < n + 1
+      · rw [execTok_short env rf m op n _ ha hlt, mstate_args_nil m hargs]
+      · have hP : (pushed args).length = args.length := by omega
+        have hPa := pushed_eq_of_length args hP
+        rw [hPa, execTok_exact env rf m op n args ha (by omega), mstate_args_nil m hargs]
+        exact call_illtyped env rf m gs op tys args hsig (by omega) hb hw hdyn
+  · have hop : op = .sc ∨ op = .scn ∨ op = .SC ∨ op = .SCN := by
+      by_cases h1 : op = .sc
+      · exact Or.inl h1
+      · by_cases h2 : op = .scn
+        · exact Or.inr (Or.inl h2)
+        · by_cases h3 : op = .SC
+          · exact Or.inr (Or.inr (Or.inl h3))
+          · by_cases h4 : op = .SCN
+            · exact Or.inr (Or.inr (Or.inr h4))
+            · exact absurd ⟨h1, h2, h3, h4⟩ hdyn
+    rcases hop with rfl | rfl | rfl | rfl <;>
+      simp only [sig, Option.some.injEq] at hsig <;> subst hsig <;>
+      simp only [List.length_replicate] at hlen <;>
+      rw [execTok_zero env rf _ _ (by decide)] <;> simp only [call]
+    · rw [doSetColor_illtyped m false gs.fillN args (by simpa using hn) hfn hlen hb hw hargs]
+    · rw [doSetColor_illtyped m false gs.fillN args (by simpa using hn) hfn hlen hb hw hargs]
+    · rw [doSetColor_illtyped m true gs.strokeN args (by simpa using hs) hsn hlen hb hw hargs]
+    · rw [doSetColor_illtyped m true gs.strokeN args (by simpa using hs) hsn hlen hb hw hargs]
 
 end PdfVerif.Interp
